@@ -390,6 +390,9 @@ Definition run_prelu_kind (a : list Z) : list Z :=
   | _ => [-1]
   end.
 
+(* CMD axis_offsets = 17 : extents... -> offsets... *)
+Definition run_axis_offsets (a : list Z) : list Z := offsets_from 0 a.
+
 Definition run (cmd : Z) (a : list Z) : list Z :=
   if cmd =? 1 then run_driver_payload a
   else if cmd =? 2 then run_driver_parse a
@@ -407,4 +410,5 @@ Definition run (cmd : Z) (a : list Z) : list Z :=
   else if cmd =? 14 then run_group_slices a
   else if cmd =? 15 then run_fold_check a
   else if cmd =? 16 then run_prelu_kind a
+  else if cmd =? 17 then run_axis_offsets a
   else [-1].
